@@ -31,6 +31,7 @@ DECIDED = [
     "R-C01-SOURCE: the take path records where a message came from and reject's insertion place depends on that record (Redis marker n/d/dead; in-memory must exist)",
     "R-OWN: place-mutating calls occur only inside their broker package; Redis keys are built only by qnc/mnc; terminal operations are called only from the known owners",
     "R-C01-TRANSFER (names, gate): every Redis list / sorted-set name built for a message carries that message's priority (one named exception: the orphan clean-up); dead-lettering on delivery happens only for NORMAL consumers (C12's gate rules reused: a nack from a DELAYED/DEAD reader has no dead-letter target)",
+    "R-C01-TRANSFER (round 4): RabbitMQ consume() returns a completed queue.get() before anything else in that iteration; the in-memory delayed->waiting promotion reads the clock once and removes exactly what it promoted (C05's CMP rules reused)",
 ]
 NOT_DECIDED = ["the whole-history statement under concurrent clients of Redis/RabbitMQ (partly C14)", "server-side behaviour", "'well-behaved client' preconditions"]
 ASSUMPTIONS = ["redis-py pipeline(transaction=True) buffers commands and sends them in one MULTI/EXEC on execute()", "asyncio: code between two awaits is atomic"]
